@@ -333,7 +333,8 @@ func (priv *PrivateKey) inverseOfPrivateKeyPlus1(c *sm2Curve) (*bigmod.Nat, erro
 			}
 		}
 	})
-	if err != nil {
+	// err is only set on the call that ran the initialization; later calls see the (missing) cached value
+	if err != nil || priv.inverseOfKeyPlus1 == nil {
 		return nil, errInvalidPrivateKey
 	}
 	return priv.inverseOfKeyPlus1, nil
